@@ -16,7 +16,7 @@ RULE = ("for each generated repodata document / metadata file: one traced run nu
         "write coming after the last signature).  non-trivial = a fault point inside the signing loop; distinct by (document, fault point)")
 
 THEOREMS = ["no_write_before_output", "failure_leaves_file", "success_writes_once", "fault_anywhere_before_output", "success_writes_signed_document",
-            "gpg_fault_anywhere_before_output", "gpg_failure_leaves_file", "gpg_success_writes_result"]
+            "gpg_fault_anywhere_before_output", "gpg_failure_leaves_file", "gpg_success_writes_result", "refused_open_leaves_file"]
 
 
 
